@@ -150,7 +150,10 @@ def run(job, seed):
                 rules = {'svc:base': b1, 'svc:get': b2,
                          # sort order: '2', '-', '.' sort below ':'
                          'svc2:list': 'role:member', 'svc-ext:get': '!',
-                         'svc.v2:show': '@', 'svc_x:y': 'role:admin'}
+                         'svc.v2:show': '@', 'svc_x:y': 'role:admin',
+                         # names that BEGIN with the colon, and the colon
+                         # alone
+                         ':lead': '@', ':': 'role:admin'}
                 if dflt:
                     rules['default'] = dflt
                 if plain:
